@@ -296,6 +296,10 @@ class Index:
         path, _, name = site.partition('::')
         m = self.module(path)
         if name not in m.classes:
+            # moved to another module and imported back under its name
+            r = self.resolve_name(m, name)
+            if isinstance(r, ClassInfo):
+                return r
             raise AnalysisError('class %s not found' % site)
         return m.classes[name]
 
@@ -337,6 +341,11 @@ class Index:
             cur = m.functions[parts[0]]
             rest = parts[1:]
         else:
+            # the anchored function / class has been moved to another module and is imported back under its name
+            r = self.resolve_name(m, parts[0])
+            if isinstance(r, (ClassInfo, FuncInfo)) and r.module is not m:
+                rtop = r.name if isinstance(r, ClassInfo) else r.qualname
+                return self.func('%s::%s' % (r.module.relpath, '.'.join([rtop] + parts[1:])), which)
             raise AnalysisError('anchor %s not found' % site)
         for p in rest:
             nxt = None
